@@ -158,10 +158,12 @@ func C12(r *core.Run) {
 				}
 				modes := []string{"single", "single github", "all", "all github"}
 				// U from a stale operand
-				write("STALE")
+				// what was stored before: ordinary text, nothing, text that also occurs earlier in the line, white space first
+				stale := []string{"STALE", "", "ARGS", "rx", "  x", "S"}[idx%6]
+				write(stale)
 				o.States++
 				if !update() {
-					fail("stored-equals-generated", "update fails", "STALE", "")
+					fail("stored-equals-generated", "update fails", stale, "")
 					continue
 				}
 				want := sh.Before + regex + sh.After
